@@ -12,7 +12,7 @@ checker suite which evaluates the property predicate on an observed result.
 """
 import json, os, random, re, subprocess, sys, time, hashlib, itertools
 
-ROOT = "/verif"
+ROOT = os.path.dirname(os.path.dirname(os.path.abspath(__file__)))
 CACHE = os.path.join(ROOT, ".cache")
 DRIVER = os.path.join(CACHE, "ocaml", "pm_driver")
 IMPL = {0: os.path.join(CACHE, "target", "debug", "impl_run"),
